@@ -54,14 +54,16 @@ def lat(b):
 
 
 def exc_key(e):
-    """class + innermost autobahn frame + the function it was calling"""
+    """class @ innermost autobahn function : the call on the source line where the exception surfaced"""
+    import re
     tb = traceback.extract_tb(e.__traceback__)
-    site, callee = "?", "-"
-    for i, fr in enumerate(tb):
+    site, tag = "?", "-"
+    for fr in tb:
         if "/autobahn/" in fr.filename:
             site = fr.name
-            callee = tb[i + 1].name if i + 1 < len(tb) and "/autobahn/" not in tb[i + 1].filename else "-"
-    return "%s@%s/%s" % (type(e).__name__, site, callee)
+            m = re.search(r"([A-Za-z_][A-Za-z_0-9\.]*)\(", fr.line or "")
+            tag = m.group(1) if m else "-"
+    return "%s@%s:%s" % (type(e).__name__, site, tag)
 
 
 def unhex(h):
@@ -192,8 +194,9 @@ def make_server(cfg, conn=1, onconnect=None):
     pol = srv_accept_policy(cfg.get("accept", ""))
     if pol:
         opts["perMessageCompressionAccept"] = pol
-    if opts:
-        f.setProtocolOptions(**opts)
+    # setProtocolOptions() resets allowNullOrigin to False whenever it is called without it (the factory default is True)
+    opts["allowNullOrigin"] = cfg.get("allowNullOrigin", True)
+    f.setProtocolOptions(**opts)
     f.countConnections = conn - 1
     events = []
     p, t = build("server", f, events)
@@ -233,6 +236,9 @@ def cli_accept_policy(name):
         def accept(response):
             if isinstance(response, PerMessageDeflateResponse):
                 return PerMessageDeflateResponseAccept(response)
+            from autobahn.websocket.compress import PerMessageBzip2Response, PerMessageBzip2ResponseAccept
+            if isinstance(response, PerMessageBzip2Response):
+                return PerMessageBzip2ResponseAccept(response)
             return None
         return accept
     return None
@@ -303,10 +309,22 @@ def run(case):
     raise ValueError(k)
 
 
+def cleanup():
+    """drop the timers (opening-handshake timeouts ...) of the finished case so that the virtual clock stays small"""
+    if env.fw == "twisted":
+        for c in env.clock.getDelayedCalls():
+            c.cancel()
+    else:
+        for h in list(env.loop._scheduled):
+            h.cancel()
+        env.pump()
+
+
 res = []
 for case in job["cases"]:
     try:
         res.append(run(case))
     except Exception:
         res.append({"error": traceback.format_exc()[-1500:]})
+    cleanup()
 json.dump({"results": res}, sys.stdout)
